@@ -8,6 +8,7 @@ class C26(dfir.DfirSpec):
     theorems = ["C26_gate_semantics", "C26_fixpoint", "C26_loop_defer"]
     modes = ("ticks", "avail")
     level = "other"
+    explanation = "Not category proof: which handoffs enter a loop's check list / swap list (non-lazy entry inputs and loop-delayed back buffers; batch_lazy excluded) is decided by the Python lowering of the real meta graph, not by a Coq function proved against a graph model; the documented release behaviour of batch/batch_lazy/all_iterations is covered by correspondence only. Proved: C26_gate_semantics, C26_fixpoint, C26_loop_defer."
     assumptions = [
         "the loop structure (gate checks, per-loop swaps, exit-handoff declarations, schedule list) is lowered from "
         "the real meta_graph() by tools/dfir.py following emit_loop_gate / as_code_with_options; validated by the cases",
